@@ -34,6 +34,27 @@ def wrap(v, bits, signed):
     return v
 
 
+class StrVal:
+    """a pointer to a string literal (only compared against the null pointer / other literals, never dereferenced blindly)"""
+    def __init__(self, b):
+        self.b = bytes(b)
+
+    def __eq__(self, o):
+        return isinstance(o, StrVal) and o.b == self.b
+
+    def __ne__(self, o):
+        return not self.__eq__(o)
+
+    def __hash__(self):
+        return hash(self.b)
+
+    def __bool__(self):
+        return True
+
+    def __repr__(self):
+        return 'StrVal(%r)' % self.b
+
+
 class Evaluator:
     def __init__(self, prog, f, env=None, arrays=None, depth=0):
         self.prog = prog
@@ -48,9 +69,19 @@ class Evaluator:
         k = e.get('k')
         if k == 'int':
             return e['v']
+        if k == 'str':
+            return StrVal(e['b'])
         if k == 'cast':
             ck = e.get('ck')
+            if ck == 'NullToPointer':
+                return 0
             v = self.ev(e['e'])
+            if isinstance(v, StrVal):
+                if ck in ('LValueToRValue', 'NoOp', 'ArrayToPointerDecay', 'BitCast'):
+                    return v
+                if ck == 'PointerToBoolean':
+                    return 1
+                raise Undecidable('cast %s of a string literal' % ck)
             if ck in ('LValueToRValue', 'NoOp'):
                 return v
             if ck == 'IntegralCast':
@@ -97,6 +128,12 @@ class Evaluator:
             if op == '||':
                 return int(bool(self.ev(e['x'])) or bool(self.ev(e['y'])))
             a, b = self.ev(e['x']), self.ev(e['y'])
+            if isinstance(a, StrVal) or isinstance(b, StrVal):
+                if op == '==':
+                    return int(a == b)
+                if op == '!=':
+                    return int(a != b)
+                raise Undecidable('arithmetic on a string literal')
             t = T(self.f, e.get('t'))
             if op == '+':
                 r = a + b
